@@ -57,6 +57,8 @@ class Run:
         self.ctx_stack = []
         self.main_names = []
         self.raised = []       # numbers of the loads that raised (for whatever reason)
+        self.own = {}          # (kind, id(obj)) -> calls of the class's OWN accessor with a probe name
+        self.probes = {}       # event index -> {allocation number: "set get get-missing del del-missing"}
         self.nctx = 0
         self.nobj = 0
         self.classes = {}
@@ -73,6 +75,48 @@ class Run:
 
     def cur(self):
         return self.ctx_stack[-1] if self.ctx_stack else None
+
+
+PROBE, PROBE_MISSING = "_c14_probe", "_c14_probe_missing"
+
+
+def probe_objects(run):
+    """attribute access on every user object allocated so far, at the current point of the load:
+    which code acts?  set: S(torage) / U(ser class's own method) / B(ase); read and delete: U or N"""
+    out = {}
+    for n, o in list(run.byseq.items()):
+        cls = type(o)
+        key = id(o)
+
+        def calls(kind):
+            return run.own.get((kind, key), 0)
+        res = []
+        c0 = calls("set")
+        try:
+            setattr(o, PROBE, 1)
+        except Exception:
+            pass
+        st = cls.__dict__.get("_tx_obj_attrs", {}).get(key)
+        if st is not None and PROBE in st:
+            res.append("S")
+        else:
+            res.append("U" if calls("set") > c0 else "B")
+        for name in (PROBE, PROBE_MISSING):
+            c0 = calls("get")
+            try:
+                getattr(o, name)
+            except Exception:
+                pass
+            res.append("U" if calls("get") > c0 else "N")
+        for name in (PROBE, PROBE_MISSING):
+            c0 = calls("del")
+            try:
+                delattr(o, name)
+            except Exception:
+                pass
+            res.append("U" if calls("del") > c0 else "N")
+        out[str(n)] = "".join(res)
+    run.probes[str(len(run.events) - 1)] = out
 
 
 def make_classes(run, names, shape):
@@ -112,6 +156,7 @@ def make_classes(run, names, shape):
                 rec["subs_ok"] = all(type(s).__name__ == "Sub" for s in kw.get("subs", []))
             run.inits.setdefault(n, []).append(rec)
             run.ev("I", run.cur(), n)
+            probe_objects(run)
             setter = object.__setattr__ if shape == "frozen" else setattr
             for k, v in kw.items():
                 try:
@@ -127,16 +172,24 @@ def make_classes(run, names, shape):
             d["__slots__"] = tuple(attrs) + ("parent", "__weakref__")
         elif shape == "frozen":
             def __setattr__(self, k, v):
+                if k == PROBE:
+                    run.own[("set", id(self))] = run.own.get(("set", id(self)), 0) + 1
                 raise AttributeError("frozen")
             d["__setattr__"] = __setattr__
         elif shape == "own":
             def __setattr__(self, k, v):
+                if k == PROBE:
+                    run.own[("set", id(self))] = run.own.get(("set", id(self)), 0) + 1
                 object.__setattr__(self, k, v)
 
             def __getattribute__(self, k):
+                if k in (PROBE, PROBE_MISSING):
+                    run.own[("get", id(self))] = run.own.get(("get", id(self)), 0) + 1
                 return object.__getattribute__(self, k)
 
             def __delattr__(self, k):
+                if k in (PROBE, PROBE_MISSING):
+                    run.own[("del", id(self))] = run.own.get(("del", id(self)), 0) + 1
                 object.__delattr__(self, k)
             d["__setattr__"] = __setattr__
             d["__getattribute__"] = __getattribute__
@@ -233,7 +286,12 @@ class Scripted:
             raise Boom("provider")
         if n == "postp":
             return Postponed()
+        run = getattr(self, "run", None)
+        act = run.sc["behav"].get("prov:%s" % n) if run is not None else None
+        if act is not None:
+            do_action(run, act)      # e.g. a complete load started from inside the scope provider
         return super().__call__(obj, attr, obj_ref)
+
 
 
 class Provider(Scripted, sp.PlainNameImportURI):
@@ -334,6 +392,7 @@ def make_mm(run, sc):
     mm = metamodel_from_str(GRAMMAR, classes=list(run.classes.values()), global_repository=bool(sc.get("global")))
     kind = sc.get("provider", "importuri")
     prov = {"importuri": Provider, "globalrepo": ProviderGlobalRepo, "fqn_globalrepo": ProviderFQNGlobalRepo}[kind]()
+    prov.run = run
     for lib in sc.get("libs", []):
         prov.register_models(os.path.join(run.root, lib["name"]))
     mm.register_scope_providers({"*.*": prov})
@@ -344,6 +403,7 @@ def make_mm(run, sc):
 
     def item_proc(it):
         run.ev("P", run.cur())
+        probe_objects(run)
         do_action(run, run.sc["behav"].get("proc:%s" % it.name))
 
     mm.register_obj_processors({"Hook": hook_proc, "Item": item_proc})
@@ -386,7 +446,9 @@ def run_scenario(sc):
                 outcome = "raised:" + type(e).__name__
             except Exception as e:  # noqa  anything else is reported and compared as a failure
                 outcome = "raised:" + type(e).__name__
-                run.problems.append("unexpected %s: %s" % (type(e).__name__, str(e)[:200]))
+                rootless = "Model" in sc["classes"] and sc["shape"] in ("slots", "frozen") and isinstance(e, AttributeError) and "_tx_parser" in str(e)
+                if not rootless:
+                    run.problems.append("unexpected %s: %s" % (type(e).__name__, str(e)[:200]))
             e = None
             after = class_dict_snapshot(run.classes)
             top = {"load": lid, "outcome": outcome, "dict_diff": dict_diff(before, after, run.classes), "snap": list(run.snap())}
@@ -394,6 +456,7 @@ def run_scenario(sc):
             res["tops"].append(top)
         res["events"] = list(run.events)
         res["raised_ctx"] = list(run.raised)
+        res["probes"] = json.loads(json.dumps(run.probes))
         res["inits"] = json.loads(json.dumps({str(k): v for k, v in run.inits.items()}))
         res["tx_attrs"] = {n: list(c._tx_attrs) for n, c in run.classes.items()}
         failed = [t for t in res["tops"] if t["outcome"] not in ("ok",)]
@@ -404,13 +467,17 @@ def run_scenario(sc):
             run.byseq = {}
             run.seq = {}
             gc.collect()
-            alive = [n for n, w in run.wrefs if w() is not None]
-            malive = sum(1 for w, _ in run.model_wrefs if w() is not None)
+            # only what the loads that raised have built: a load that a callback started and that
+            # succeeded may legitimately stay cached in a metamodel-global repository
+            raised = set(run.raised)
+            actx = {e[2]: e[1] for e in run.events if e[0] == "A"}
+            alive = [n for n, w in run.wrefs if w() is not None and actx.get(n) in raised]
+            malive = sum(1 for w, cid in run.model_wrefs if w() is not None and cid in raised)
             res["alive"] = alive
             res["models_alive"] = malive
             if alive:
                 # who holds the first survivor (names only)
-                o = [w for n, w in run.wrefs if w() is not None][0]()
+                o = [w for n, w in run.wrefs if n == alive[0]][0]()
                 holders = []
                 for r in gc.get_referrers(o):
                     if r is not run.wrefs and not isinstance(r, type(sys._getframe())):
@@ -424,7 +491,7 @@ def run_scenario(sc):
             run2.classes = make_classes(run2, sc["classes"], sc["shape"])
             run2.mm = make_mm(run2, sc)
             want = reference_load(run2, run2.mm)
-            if any(t["outcome"] == "ok" for t in res["tops"]):
+            if any(e[0] == "E" and e[1] not in run.raised for e in res["events"]):
                 # earlier successful loads legitimately stay cached: only the result is comparable
                 got, want = {"dump": got["dump"]}, {"dump": want["dump"]}
             res["next"] = {"same": got == want, "got": got, "want": want}
